@@ -191,6 +191,27 @@ func (vc *FnVC) processBlocks(order []*ssa.BasicBlock, start *State) {
 				vc.backEdge(b, s)
 			}
 		}
+		// edges leaving a loop: exit-step clauses
+		if vc.scratch == 0 && vc.con != nil && len(vc.con.ExitSteps) > 0 {
+			if _, isRet := last.(*ssa.Return); !isRet {
+				for _, li := range vc.loops {
+					if !li.body[b] || li.entryS == nil || len(vc.con.ExitSteps[li.ord]) == 0 {
+						continue
+					}
+					for _, s := range b.Succs {
+						if !li.body[s] {
+							vc.exitEdge(b, s, li)
+						}
+					}
+				}
+			} else {
+				for _, li := range vc.loops {
+					if li.body[b] && li.entryS != nil && len(vc.con.ExitSteps[li.ord]) > 0 {
+						vc.exitEdge(b, nil, li)
+					}
+				}
+			}
+		}
 	}
 }
 
@@ -711,4 +732,41 @@ func (vc *FnVC) doPanic(p *ssa.Panic) {
 		return
 	}
 	vc.assert("explicit-panic", "panic("+vc.exprText(p.X)+")", "false")
+}
+
+// exitEdge checks the exit-step clauses of loop li on the edge from (loop) block `from` to `to` (nil: a return inside the loop).
+func (vc *FnVC) exitEdge(from, to *ssa.BasicBlock, li *LoopInfo) {
+	st := vc.exitSt[from]
+	if st == nil || st.dead {
+		return
+	}
+	cond := "true"
+	if to != nil {
+		cond = vc.edgeCond(from, to)
+	}
+	hyp := vc.defineBool(fmt.Sprintf("EX_%d", from.Index), sAnd(st.reach, cond))
+	save := vc.st
+	tmp := st.clone()
+	tmp.reach = hyp
+	tmp.assumes = nil
+	vc.st = tmp
+	for i, c := range vc.con.ExitSteps[li.ord] {
+		env := vc.invEnv(tmp)
+		env.prev = li.entryS
+		var parts []string
+		_, err := vc.trySpec(func() string { parts = env.conjuncts(c.Expr, false); return "" })
+		if err != "" {
+			vc.stale = append(vc.stale, fmt.Sprintf("%s loop %d exitstep %d: %s", vc.key, li.ord, i+1, err))
+			continue
+		}
+		vc.flushSide(env)
+		for j, t := range parts {
+			nm := fmt.Sprintf("loop%d:%s", li.ord, clauseName(c, i))
+			if len(parts) > 1 {
+				nm = fmt.Sprintf("%s.%d", nm, j+1)
+			}
+			vc.assert("loop-exit-step", nm, t)
+		}
+	}
+	vc.st = save
 }
